@@ -2,6 +2,11 @@
 // clients stall at generated points of every listener stacking (plain, TLS, PROXY protocol, PROXY+TLS,
 // MITM) and the instant at which the proxy closes their socket is measured on the wall clock; groups of
 // 1-50 simultaneously stalled peers are accompanied by a well-behaved probe whose latency is measured.
+// The other half of the property - a client is never closed merely because the ORIGIN is slow - is
+// exercised with every client-side limit configured (WriteTimeout included) and SHORTER than the
+// origin's latency: slow response heads, slow CONNECT targets (delayed dial, full accept queue, an
+// upstream proxy that delays its 200), slow response bodies; and the dual, a client that does not
+// take a large response, which is cut off WriteTimeout after the proxy started writing (slow.go).
 //
 // All instants are microseconds on the monotonic clock of this process (the proxy runs in-process, so
 // both sides read the same clock).  The instant a phase begins at the proxy is never earlier than the
@@ -34,11 +39,13 @@ import (
 
 func init() { core.Register("C15", core.Scenario{Run: Run, Replay: Replay}) }
 
-// No known-finding class is open for this property: F8 (the accept loop waited for the PROXY header of
-// every connection) and F32 (no deadline for the first tunnel byte after an intercepted CONNECT) are
+// One known-finding class is open for this property: F45 (slow.go, classSlowBody - the write deadline is one
+// absolute instant, a response whose body the origin delivers over more than WriteTimeout is cut off).
+// F8 (the accept loop waited for the PROXY header of every connection), F32 (no deadline for the first
+// tunnel byte after an intercepted CONNECT) and F46 (the request's read deadline stayed armed on tunnels) are
 // repaired in the tree. The inputs that showed them - groups of peers stalled in their PROXY header next to
-// a probe, a client silent after the 200 to CONNECT - are generated on every run and kept in the corpus;
-// what they find is a VIOLATION.
+// a probe, a client silent after the 200 to CONNECT, tunnels used for longer than ReadTimeout - are
+// generated on every run and kept in the corpus; what they find is a VIOLATION.
 const epsUs = 1000 // clock granularity allowed on the sharp side (1 ms)
 
 // Limits are the configured limits in milliseconds (0 = not set).
@@ -48,12 +55,15 @@ type Limits struct {
 	Read       int `json:"read"`
 	TLS        int `json:"tls"`
 	ProxyHdr   int `json:"proxy_hdr"`
+	Write      int `json:"write,omitempty"`   // WriteTimeout
+	Connect    int `json:"connect,omitempty"` // ConnectTimeout (origin side: CONNECT through an upstream proxy); 0 = default (60 s)
 }
 
 // Conf is one proxy configuration: listener stacking + limits.
 type Conf struct {
-	Stack string `json:"stack"` // "plain" | "tls" | "mitm" | "proxy" | "proxy+tls"
-	L     Limits `json:"limits"`
+	Stack    string `json:"stack"` // "plain" | "tls" | "mitm" | "proxy" | "proxy+tls"
+	L        Limits `json:"limits"`
+	Upstream bool   `json:"upstream,omitempty"` // requests and CONNECTs go through a scripted upstream HTTP proxy
 }
 
 func (c Conf) hasProxy() bool { return c.Stack == "proxy" || c.Stack == "proxy+tls" }
@@ -67,7 +77,7 @@ func (c Conf) stackWire() string {
 // limitsWire renders the limits in microseconds.
 func (c Conf) limitsWire() string {
 	l := c.L
-	return fmt.Sprintf("%d,%d,%d,%d,%d", l.Idle*1000, l.ReadHeader*1000, l.Read*1000, l.TLS*1000, l.ProxyHdr*1000)
+	return fmt.Sprintf("%d,%d,%d,%d,%d,%d", l.Idle*1000, l.ReadHeader*1000, l.Read*1000, l.TLS*1000, l.ProxyHdr*1000, l.Write*1000)
 }
 
 // limits named by the property, by stall point (independent of the model): ms, 0 = none
@@ -95,6 +105,8 @@ func (c Conf) limitAt(point string) int {
 		return c.idleEff()
 	case "head":
 		return c.headerEff()
+	case "writing":
+		return c.L.Write
 	}
 	return 0
 }
@@ -115,6 +127,17 @@ func (c Conf) positive() []int {
 func (c Conf) maxLimit() int {
 	m := 0
 	for _, v := range c.positive() {
+		if v > m {
+			m = v
+		}
+	}
+	return m
+}
+
+// maxClientLimit: the longest limit that could close the client connection, WriteTimeout included.
+func (c Conf) maxClientLimit() int {
+	m := c.maxLimit()
+	for _, v := range []int{c.L.Write, c.L.Read} {
 		if v > m {
 			m = v
 		}
@@ -154,6 +177,12 @@ type env struct {
 	hello  []byte
 	stamps sync.Map // Case-Id → time.Time at which the origin began writing its response
 	slack  time.Duration
+
+	echo     *rig.Peer // raw tunnel target: echoes what it receives
+	upstream *rig.Peer // scripted upstream HTTP proxy (conf.Upstream)
+	routes   sync.Map  // "host:port" → loopback address of a per-case listener (slow-accept targets)
+	fins     sync.Map  // Case-Id → time.Time at which the origin had written its whole response
+	cuts     sync.Map  // Case-Id → chan time.Time: instant at which a write of the origin failed
 }
 
 const (
@@ -193,16 +222,50 @@ func newEnv(ctx *core.Ctx, conf Conf) (*env, error) {
 		e.origin.Close()
 		return nil, err
 	}
+	if e.echo, err = rig.NewRawPeer("echo", func(pc *rig.PeerConn) { io.Copy(pc.Conn, pc.BR) }); err != nil {
+		e.origin.Close()
+		return nil, err
+	}
+	routes := []forwarder.HostPortPair{rig.Route("origin.test", "80", e.origin.Addr), rig.Route("origin.test", "443", e.origin.Addr)}
+	if conf.Upstream {
+		if e.upstream, err = rig.NewRawPeer("upstream", e.upstreamConn); err != nil {
+			e.close()
+			return nil, err
+		}
+		routes = append(routes, rig.Route("upstream.test", "3128", e.upstream.Addr))
+	}
 	ms := func(n int) time.Duration { return time.Duration(n) * time.Millisecond }
 	e.proxy, err = rig.StartProxy(rig.ProxyOpts{
-		ConnectTo: []forwarder.HostPortPair{rig.Route("origin.test", "80", e.origin.Addr), rig.Route("origin.test", "443", e.origin.Addr)},
-		Transport: func(tc *forwarder.HTTPTransportConfig) { tc.CACertFiles = []string{caFile} },
+		ConnectTo: routes,
+		Transport: func(tc *forwarder.HTTPTransportConfig) {
+			tc.CACertFiles = []string{caFile}
+			// slow CONNECT targets: "slow-<ms>.test" is a dial that takes <ms> longer (a slow resolver or
+			// network path), anything in e.routes a per-case listener; everything stays on loopback
+			base := tc.RedirectFunc
+			tc.RedirectFunc = func(network, address string) (string, string) {
+				if a, ok := e.routes.Load(address); ok {
+					return network, a.(string)
+				}
+				if d, ok := slowTarget(address); ok {
+					time.Sleep(d)
+					return network, e.echo.Addr
+				}
+				return base(network, address)
+			}
+		},
 		Configure: func(cfg *forwarder.HTTPProxyConfig) {
 			cfg.Name = "fwdverif"
 			cfg.PromRegistry = prometheus.NewRegistry()
 			cfg.IdleTimeout = ms(conf.L.Idle)
 			cfg.ReadHeaderTimeout = ms(conf.L.ReadHeader)
 			cfg.ReadTimeout = ms(conf.L.Read)
+			cfg.WriteTimeout = ms(conf.L.Write)
+			if conf.L.Connect > 0 {
+				cfg.ConnectTimeout = ms(conf.L.Connect)
+			}
+			if conf.Upstream {
+				cfg.UpstreamProxy = rig.MustURL("http://upstream.test:3128")
+			}
 			cfg.TLSServerConfig.HandshakeTimeout = ms(conf.L.TLS)
 			if conf.hasProxy() {
 				cfg.ProxyProtocolConfig = &forwarder.ProxyProtocolConfig{ReadHeaderTimeout: ms(conf.L.ProxyHdr)}
@@ -216,7 +279,7 @@ func newEnv(ctx *core.Ctx, conf Conf) (*env, error) {
 		},
 	})
 	if err != nil {
-		e.origin.Close()
+		e.close()
 		return nil, err
 	}
 	e.roots = e.ca.Pool()
@@ -234,22 +297,139 @@ func (e *env) close() {
 	if e.origin != nil {
 		e.origin.Close()
 	}
+	if e.echo != nil {
+		e.echo.Close()
+	}
+	if e.upstream != nil {
+		e.upstream.Close()
+	}
 }
 
-// respond is the origin: optional sleep, then a small 200; the instant just before the write is recorded.
+// respond is the origin: optional sleep, then a 200; the instant just before the first write is recorded.
+//
+//	X-Sleep-Ms: n          sleep before the response head
+//	X-Body: n              body of n bytes (default: "ok")
+//	X-Trickle: p,gap,n     head at once, then p pieces of n bytes, each after a pause of gap ms
+//	X-Chunked: 1           (with X-Trickle) chunked framing, one chunk per piece
+//	X-Endless: 1           Content-Length 1 GiB, written until a write fails; that instant is recorded
+//	X-Upgrade: 1           101 Switching Protocols (Upgrade: echo), then everything received is echoed
 func (e *env) respond(w *rig.PeerConn, ex *rig.Exchange) bool {
 	if s := ex.Req.Get("X-Sleep-Ms"); s != "" {
 		if n, err := strconv.Atoi(s); err == nil {
 			time.Sleep(time.Duration(n) * time.Millisecond)
 		}
 	}
-	b := rig.Head("HTTP/1.1 200 OK", []rig.Field{{Name: "Content-Length", Value: "2"}, {Name: "Content-Type", Value: "text/plain"}})
-	b = append(b, "ok"...)
-	if id := ex.Req.Get("Case-Id"); id != "" {
-		e.stamps.Store(id, time.Now())
+	id := ex.Req.Get("Case-Id")
+	stamp := func() {
+		if id != "" {
+			e.stamps.Store(id, time.Now())
+		}
 	}
+	ct := rig.Field{Name: "Content-Type", Value: "text/plain"}
+	switch {
+	case ex.Req.Get("X-Upgrade") != "":
+		stamp()
+		if _, err := w.Write(rig.Head("HTTP/1.1 101 Switching Protocols", []rig.Field{{Name: "Connection", Value: "Upgrade"}, {Name: "Upgrade", Value: "echo"}})); err == nil {
+			io.Copy(w.Conn, w.BR)
+		}
+		return false
+	case ex.Req.Get("X-Endless") != "":
+		const total = 1 << 30
+		block := bytes.Repeat([]byte{'z'}, 64<<10)
+		stamp()
+		_, err := w.Write(rig.Head("HTTP/1.1 200 OK", []rig.Field{{Name: "Content-Length", Value: strconv.Itoa(total)}, ct}))
+		for n := 0; err == nil && n < total; n += len(block) {
+			_, err = w.Write(block)
+		}
+		if cut := time.Now(); err != nil {
+			if ch, ok := e.cuts.Load(id); ok {
+				select {
+				case ch.(chan time.Time) <- cut:
+				default:
+				}
+			}
+		}
+		return false
+	case ex.Req.Get("X-Trickle") != "":
+		var pieces, gap, n int
+		fmt.Sscanf(ex.Req.Get("X-Trickle"), "%d,%d,%d", &pieces, &gap, &n)
+		chunked := ex.Req.Get("X-Chunked") != ""
+		piece := bytes.Repeat([]byte{'t'}, n)
+		stamp()
+		if chunked {
+			w.Write(rig.Head("HTTP/1.1 200 OK", []rig.Field{{Name: "Transfer-Encoding", Value: "chunked"}, ct}))
+		} else {
+			w.Write(rig.Head("HTTP/1.1 200 OK", []rig.Field{{Name: "Content-Length", Value: strconv.Itoa(pieces * n)}, ct}))
+		}
+		for i := 0; i < pieces; i++ {
+			time.Sleep(time.Duration(gap) * time.Millisecond)
+			var err error
+			if chunked {
+				_, err = fmt.Fprintf(w, "%x\r\n%s\r\n", n, piece)
+			} else {
+				_, err = w.Write(piece)
+			}
+			if err != nil {
+				return false
+			}
+		}
+		if chunked {
+			w.Write([]byte("0\r\n\r\n"))
+		}
+		if id != "" {
+			e.fins.Store(id, time.Now())
+		}
+		return true
+	}
+	body := []byte("ok")
+	if s := ex.Req.Get("X-Body"); s != "" {
+		if n, err := strconv.Atoi(s); err == nil && n >= 0 {
+			body = bytes.Repeat([]byte{'r'}, n)
+		}
+	}
+	b := rig.Head("HTTP/1.1 200 OK", []rig.Field{{Name: "Content-Length", Value: strconv.Itoa(len(body))}, ct})
+	b = append(b, body...)
+	stamp()
 	w.Write(b)
 	return true
+}
+
+// slowTarget parses "slow-<ms>.test:<port>".
+func slowTarget(address string) (time.Duration, bool) {
+	host, _, err := net.SplitHostPort(address)
+	if err != nil || !strings.HasPrefix(host, "slow-") || !strings.HasSuffix(host, ".test") {
+		return 0, false
+	}
+	n, err := strconv.Atoi(strings.TrimSuffix(strings.TrimPrefix(host, "slow-"), ".test"))
+	if err != nil || n < 0 {
+		return 0, false
+	}
+	return time.Duration(n) * time.Millisecond, true
+}
+
+// upstreamConn is the scripted upstream HTTP proxy: CONNECT is answered with 200 - after <ms> when the
+// target is "slow-<ms>.test" - and everything that follows is echoed; any other request is answered the
+// way the origin answers it.
+func (e *env) upstreamConn(pc *rig.PeerConn) {
+	for i := 0; ; i++ {
+		req, err := rig.ReadRequest(pc.BR)
+		if err != nil {
+			return
+		}
+		if req.Method == "CONNECT" {
+			if d, ok := slowTarget(req.Target); ok {
+				time.Sleep(d)
+			}
+			if _, err := pc.Write([]byte("HTTP/1.1 200 Connection established\r\n\r\n")); err != nil {
+				return
+			}
+			io.Copy(pc.Conn, pc.BR)
+			return
+		}
+		if !e.respond(pc, &rig.Exchange{ConnID: pc.ID, Index: i, Req: req, At: time.Now()}) {
+			return
+		}
+	}
 }
 
 // captureHello returns the bytes of a real ClientHello (first flight of crypto/tls).
@@ -386,6 +566,11 @@ func (s *sess) target() string {
 }
 
 func (s *sess) requestHead(bodyLen, sleepMs int) (string, []byte) {
+	return s.requestHeadX(bodyLen, sleepMs)
+}
+
+// requestHeadX: extra = further field lines ("Name: value") understood by the scripted origin.
+func (s *sess) requestHeadX(bodyLen, sleepMs int, extra ...string) (string, []byte) {
 	s.nreq++
 	rid := fmt.Sprintf("%s-%d", s.id, s.nreq)
 	method := "GET"
@@ -400,14 +585,17 @@ func (s *sess) requestHead(bodyLen, sleepMs int) (string, []byte) {
 	if bodyLen > 0 {
 		fmt.Fprintf(&b, "Content-Length: %d\r\n", bodyLen)
 	}
+	for _, x := range extra {
+		b.WriteString(x + "\r\n")
+	}
 	b.WriteString("\r\n")
 	return rid, b.Bytes()
 }
 
 // exchange sends one complete request and reads the response; the response's event carries the instant
 // the origin began writing it (a lower bound of the instant the proxy became idle again).
-func (s *sess) exchange(bodyLen, sleepMs int, wait time.Duration) (time.Time, int, error) {
-	rid, head := s.requestHead(bodyLen, sleepMs)
+func (s *sess) exchange(bodyLen, sleepMs int, wait time.Duration, extra ...string) (time.Time, int, error) {
+	rid, head := s.requestHeadX(bodyLen, sleepMs, extra...)
 	method := "GET"
 	msg := head
 	if bodyLen > 0 {
@@ -603,6 +791,8 @@ func phaseOfPoint(point string) string {
 		return "mitmPeek"
 	case "mitm-hello":
 		return "mitmHandshake"
+	case "writing":
+		return "writing"
 	}
 	return "?"
 }
